@@ -29,6 +29,7 @@ type Facts struct {
 	Frontier int  `json:"frontier"` // distinct missing nodes directly below the reachable part (the root if it is missing)
 	Complete int  `json:"complete"` // distinct reachable nodes whose whole subtree is stored
 	TrieDone bool `json:"trie_done"`
+	Trap     bool `json:"trap"` // the traversal of defineSyncStage, with the pool bookkeeping of the tree before 847be2f, loses track of a node (see SyncCrash.tla, Trav)
 	RcBad    int  `json:"rc_bad"`  // reachable nodes whose stored reference count differs from their reachable occurrences
 	Orphans  int  `json:"orphans"` // stored source nodes not reachable from the root
 	GenOnly  int  `json:"gen_only"`
@@ -212,6 +213,7 @@ func (w *world) project(d Disk) Facts {
 	}
 	walk(w.root, []byte{})
 	f.Reach, f.Frontier, f.Complete = len(occ), len(missing), len(complete)
+	f.Trap = w.travTrap(stored)
 	f.TrieDone = len(missing) == 0
 	f.TempMiss = tempMiss
 	if f.Pfx == "B" {
@@ -317,4 +319,51 @@ func stageOfClass(c string) string {
 		return "done"
 	}
 	return "jump"
+}
+
+// travTrap replays defineSyncStage's traversal on the stored part of the trie with the pool bookkeeping keyed by hash
+// (the first visit of a node takes every path the pool has for it): true if a later occurrence of a node finds the
+// pool without it. The order is Billet.traverse's: a branch's last child first, then children 0..15.
+func (w *world) travTrap(stored map[util.Uint256][]byte) bool {
+	pool := map[util.Uint256]bool{w.root: true}
+	trap := false
+	var visit func(h util.Uint256, path []byte)
+	visit = func(h util.Uint256, path []byte) {
+		v, ok := stored[h]
+		if !ok || len(v) < 5 {
+			return
+		}
+		n := decodeNode(v[:len(v)-5])
+		if n == nil {
+			return
+		}
+		if !pool[h] {
+			trap = true
+		} else {
+			delete(pool, h)
+			for ch := range mpt.GetChildrenPaths(path, n) {
+				pool[ch] = true
+			}
+		}
+		switch b := n.(type) {
+		case *mpt.BranchNode:
+			for k := 0; k < len(b.Children); k++ {
+				i := (k + len(b.Children) - 1) % len(b.Children) // last child first
+				if b.Children[i].Type() != mpt.HashT {
+					continue
+				}
+				cp := append([]byte{}, path...)
+				if i != len(b.Children)-1 {
+					cp = append(cp, byte(i))
+				}
+				visit(b.Children[i].Hash(), cp)
+			}
+		case *mpt.ExtensionNode:
+			for ch, cps := range mpt.GetChildrenPaths(path, n) {
+				visit(ch, cps[0])
+			}
+		}
+	}
+	visit(w.root, []byte{})
+	return trap
 }
